@@ -19,6 +19,10 @@ type verifVersion struct {
 	lastModified time.Time
 }
 
+// highest operation number drawn by the symbolic steps: 4 = plain versioning
+// operations, 7 = also conditional writes/deletes (C07)
+var verifMaxOp = 4
+
 type verifVersionModel struct {
 	versions []verifVersion
 	seq      int
@@ -75,7 +79,7 @@ func verifVersionsRunFrom(prefixOps []int, steps int, checkImmutable bool, known
 		if s < len(prefixOps) {
 			op = prefixOps[s]
 		} else {
-			op = verifPick("op", 0, 4)
+			op = verifPick("op", 0, verifMaxOp)
 		}
 		switch op {
 		case 0: // put
@@ -126,6 +130,65 @@ func verifVersionsRunFrom(prefixOps []int, steps int, checkImmutable bool, known
 			_, err := sms.DeleteObject(verifCtx, tx, bucket, key, &metadatastore.DeleteObjectOptions{VersionID: &vid})
 			verifAssert(err == nil, "versioning: DeleteObject(versionId) failed")
 			model.remove(vid)
+		case 5, 6: // conditional put: If-None-Match:* (5) or If-Match:<etag> (6)
+			cur := model.current()
+			exists := cur != nil && !cur.marker
+			opts := &metadatastore.PutObjectOptions{}
+			want := false
+			if op == 5 {
+				opts.IfNoneMatchStar = true
+				want = !exists
+			} else {
+				e := etags[verifPick("ifMatch", 0, 2)]
+				opts.IfMatchETag = &e
+				want = exists && cur.etag == e
+			}
+			obj := &metadatastore.Object{Key: key, ETag: etags[puts], Size: 1}
+			_, err := sms.PutObject(verifCtx, tx, bucket, obj, opts)
+			if !want {
+				verifAssert(err == metadatastore.ErrPreconditionFailed, "C07: conditional write succeeded although its precondition does not hold")
+				verifCover("cond-put-rejected")
+				break
+			}
+			verifAssert(err == nil, "C07: conditional write failed although its precondition holds")
+			verifCover("cond-put-accepted")
+			vid := *obj.VersionID
+			model.seq++
+			rowSeq := model.seq
+			if vid == "null" {
+				for _, v := range model.versions {
+					if v.vid == "null" {
+						rowSeq = v.rowSeq
+					}
+				}
+				model.remove("null")
+			}
+			model.versions = append(model.versions, verifVersion{vid: vid, etag: etags[puts], seq: model.seq, rowSeq: rowSeq})
+			puts++
+			h, herr := sms.HeadObjectVersion(verifCtx, tx, bucket, key, vid)
+			verifAssert(herr == nil && h.ETag == obj.ETag, "versioning: a version just written is not addressable by the id returned")
+			model.versions[len(model.versions)-1].lastModified = h.LastModified
+		case 7: // conditional key-only delete with If-Match
+			cur := model.current()
+			exists := cur != nil && !cur.marker
+			e := etags[verifPick("ifMatch", 0, 2)]
+			res, err := sms.DeleteObject(verifCtx, tx, bucket, key, &metadatastore.DeleteObjectOptions{IfMatchETag: &e})
+			if !(exists && cur.etag == e) {
+				verifAssert(err == metadatastore.ErrPreconditionFailed, "C07: conditional delete succeeded although the current ETag differs")
+				verifCover("cond-delete-rejected")
+				break
+			}
+			verifAssert(err == nil, "C07: conditional delete failed although the ETag matches")
+			switch status {
+			case "":
+				model.remove("null")
+			case "Suspended":
+				model.remove("null")
+				fallthrough
+			default:
+				model.seq++
+				model.versions = append(model.versions, verifVersion{vid: *res.VersionID, seq: model.seq, rowSeq: model.seq, marker: true})
+			}
 		case 3:
 			status = "Enabled"
 			verifSetVersioning(tx, status)
